@@ -49,6 +49,7 @@ func init() {
 			"ECDSA signatures are made deterministic (RFC 6979) by a crypto.Signer wrapper, so case lists are reproducible; no equality oracle involves a signature value",
 			"golang.org/x/crypto/ocsp with the crypto/x509 form of the same issuer is a second opinion; SHA-1 based signatures are excluded from it (crypto/x509 refuses them)",
 			"critical singleExtensions are refused by ParseResponse by design; counted, not asserted",
+			"CreateResponse writes the wall-clock minute into ProducedAt, so the signed bytes and the DER length of ECDSA signatures (±2 bytes) differ between runs of the same seed: every flip enumeration is complete for the response actually produced, evaluation totals vary by a few cases, verdict keys do not",
 		},
 	}, runC13)
 }
@@ -65,6 +66,7 @@ type c13issuer struct {
 type c13env struct {
 	c       *core.Ctx
 	r       *rand.Rand
+	sample  *rand.Rand
 	issuers []*c13issuer
 	other   *party
 }
@@ -96,7 +98,7 @@ func (e *c13env) mkParty(label string, name *dn, ecIdx int, rsaKey *keys.RSAKey,
 }
 
 func newC13env(c *core.Ctx) (*c13env, error) {
-	e := &c13env{c: c, r: c.Rng}
+	e := &c13env{c: c, r: c.Rng, sample: c.SubRng("oracle-sampling")}
 	r := c.SubRng("universe")
 	tag := fmt.Sprintf("%d", c.Shard)
 	var err error
@@ -804,7 +806,7 @@ func (e *c13env) judge(s *seed, m []byte, kind, caseID string, detail func() map
 	}
 	if zerr != nil {
 		c.Count("tampered_refused", 1)
-		if e.r.IntN(16) == 0 { // keep an eye on the oracle itself: it must not accept what zcrypto refuses too often
+		if e.sample.IntN(16) == 0 { // keep an eye on the oracle itself (own stream: outcomes must not steer case generation): it must not accept what zcrypto refuses too often
 			if v := verifyOCSP(m, s.issuer.pub()); v.ok {
 				c.Count("refused_by_zcrypto_but_independently_valid:"+kind, 1)
 			} else {
